@@ -146,6 +146,8 @@ def canon(o, reg, cell=ccell):
         return ['T', [canon(x, reg, cell) for x in o]]
     if isinstance(o, dict):
         return ['D', [[keycode(k) if isinstance(k, str) and len(k) == 1 else str(k), canon(x, reg, cell)] for k, x in o.items()]]
+    if isinstance(o, (pd.Series, pd.DataFrame)) and len(o.index) and not isinstance(o.index, pd.DatetimeIndex):
+        return ['S?' if isinstance(o, pd.Series) else 'F?', [str(x) for x in o.index][:8]]
     if isinstance(o, pd.Series):
         return ['S', cdays(o.index), [cell(v) for v in o.values]]
     if isinstance(o, pd.DataFrame):
